@@ -55,6 +55,11 @@ for f in ("f64", "f32"):
         domain=f"all finite {f} values (full range)", inst=f, est_s=5, cap_s=300)
 
 
+for f in ("f32", "f64"):
+    reg(f"signed_area_fix_{f}", file="boolean/h_sa.rs", props={"C10": "quick", "C08": "thorough", "C15": "thorough"}, lemma="L-SA", inst=f, unwind=3, est_s=300, cap_s=2400, mem_gb=16,
+        domain="three points with fixed-point coordinates m*2^-10, |m| < 2^22 (2^23 values per axis, all f32-representable); orient2d replaced by the plain f64 determinant, which is exact on this domain",
+        claim=f"signed_area::<{f}>: exact sign (and value) of the determinant of (p0,p1,p2) in that order - the f32 instantiation widens losslessly before any arithmetic")
+
 # --------------------------------------------------------------------------------------- L-CF (D-FLAGS)
 FLAGS = "complete flag space: operation x operand tags x (S,C) world x predecessor kind/verticality x stale state; geometry concrete"
 CF = dict(file="boolean/h_cf.rs", lemma="L-CF", domain=FLAGS, inst="f64", est_s=60, cap_s=1200, mem_gb=20, unwind=3)
@@ -237,18 +242,28 @@ for _nm in ("left_chain", "right_chain", "zigzag_lr", "zigzag_rl", "balanced"):
     reg(f"sp_remove3_{_nm}", props={"C17": "quick"}, est_s=200, cap_s=1500,
         claim=f"3-node tree of shape {_nm}: one remove with an arbitrary key (present or absent) returns what the reference returns and leaves a BST holding exactly the reference entries",
         **dict(SEQ, unwind=4, domain="concrete initial shape (all five 3-node shapes have a harness), key symbolic"))
-    reg(f"sp_query3_{_nm}", props={"C17": "thorough"}, est_s=500, cap_s=2400, mem_gb=30,
+    reg(f"sp_query3_{_nm}", props={"C17": "thorough"}, est_s=500, cap_s=2400,
         claim=f"3-node tree of shape {_nm}: get / next / prev with an arbitrary key agree with the reference and leave the contents intact",
-        **dict(SEQ, unwind=4, domain="concrete initial shape (all five 3-node shapes have a harness), query kind and key symbolic"))
+        **dict(SEQ, unwind=4, mem_gb=30, domain="concrete initial shape (all five 3-node shapes have a harness), query kind and key symbolic"))
 reg("sp_getmut_index", props={"C17": "quick"}, est_s=200, cap_s=1200, claim="get_mut, Index and IndexMut after two inserts with arbitrary keys agree with the reference", **SEQ)
-reg("sp_extend_clear", props={"C17": "quick"}, est_s=300, cap_s=1500, claim="extend (incl. duplicate keys) then clear then reuse, against the reference; BST shape after extend", **dict(SEQ, unwind=4))
-reg("sp_set_wrappers", props={"C17": "quick"}, est_s=300, cap_s=1500, claim="SplaySet insert/contains/find/next/prev/min/max/len/remove agree with the reference set", **dict(SEQ, inst="SplaySet<u8, closure>"))
+reg("sp_extend", props={"C17": "quick"}, est_s=300, cap_s=1500, claim="extend (incl. duplicate keys, later pairs replace earlier ones) against the reference; BST shape", **dict(SEQ, unwind=4))
+reg("sp_clear", props={"C17": "quick"}, est_s=60, cap_s=900, claim="clear() of each of the five 3-node shapes empties the map and leaves it usable", **dict(SEQ, unwind=8, domain="five concrete 3-node shapes"))
+reg("sp_set_insert_lookup", props={"C17": "quick"}, est_s=200, cap_s=1500, claim="SplaySet insert/contains/find/min/max/len/is_empty agree with the reference set", **dict(SEQ, inst="SplaySet<u8, closure>"))
+reg("sp_set_neighbours_remove", props={"C17": "quick"}, est_s=200, cap_s=1500, claim="SplaySet next/prev/remove agree with the reference set", **dict(SEQ, inst="SplaySet<u8, closure>"))
+
 for q in ("get", "next", "prev", "minmax", "shape", "refstab", "iter"):
     _seq(f"sp_iii_{q}", "thorough", 900)
 for nm in ("sp_iir_get", "sp_iir_next", "sp_iir_shape", "sp_iri_shape", "sp_iri_get"):
     _seq(nm, "thorough", 700)
 for nm in ("sp_iiri_shape", "sp_iiir_shape", "sp_iiir_get", "sp_iiii_shape", "sp_iiii_refstab"):
     _seq(nm, "thorough", 2000)
+for _n in list(H):
+    if _n.startswith("sp_iii") or _n.startswith("sp_iir") or _n.startswith("sp_iri"):
+        H[_n]["unwind"] = 4
+        H[_n]["mem_gb"] = 24
+    if _n.startswith("sp_iiii") or _n.startswith("sp_iiir") or _n.startswith("sp_iiri"):
+        H[_n]["unwind"] = 5
+        H[_n]["mem_gb"] = 44
 
 # --------------------------------------------------------------------------------------- tables
 PROP_BOUNDS = {}
@@ -267,12 +282,12 @@ QUICK = {
     "C06": ["dispatch_predicate", "dispatch_empty_subject", "dispatch_empty_clipping", "dispatch_empty_both", "dispatch_union_multi1_multi1", "cf_twins_nonvert_pp1", "pi_ov_h0s", "pi_ov_v2c"],
     "C07": ["dispatch_forward_poly_multi2", "dispatch_forward_multi2_multi1", "dispatch_forward_multi2_poly", "dispatch_named_methods", "fill_edge_f64", "fill_two_edges_f64", "fill_ids_2h_2h", "fill_ids_1_1h", "fill_ids_0_2", "fill_ids_2_0"],
     "C08": ["int_scale_f32"],
-    "C10": ["nextafter_f64", "nextafter_f32", "int_classify_f32", "int_agree"],
+    "C10": ["nextafter_f64", "nextafter_f32", "int_classify_f32", "int_agree", "signed_area_fix_f32", "signed_area_fix_f64"],
     "C13": ["fill_edge_f64", "fill_two_edges_f64", "fill_ids_2h_2h", "fill_ids_0_2", "divide_contract_f64", "pi_none", "pi_point", "pi_ov_h1c", "pi_ov_v6s", "pi_ov_f5s", "pi_ov_v7c", "sweep_protocol_mid_removed"],
     "C14": ["cf_base", "cf_step_same_nonvert", "cf_step_diff_nonvert", "cf_step_same_vert", "cf_step_diff_vert", "cf_twins_nonvert_pp0", "cf_twins_nonvert_pp1", "cf_twins_nonvert_pp2", "cf_twins_vert_pp0", "cf_twins_vert_pp1"],
     "C15": ["evord_ll_f64", "evord_lr_f64", "evord_rr_f64", "segord_pair_f32_n3"],
     "C16": ["int_classify_f32", "int_swap_f32", "divide_contract_f64", "divide_ulp_f64", "pi_none", "pi_point", "pi_ov_v0c", "pi_ov_v3c", "pi_ov_v6s", "pi_ov_v8s", "pi_ov_h5s", "pi_ov_f6c", "pi_ov_r7c", "pi_ov_h5_same"],
-    "C17": ["sp_ii_get", "sp_ii_next", "sp_ii_prev", "sp_ii_minmax", "sp_ii_shape", "sp_ii_iter", "sp_ir_get", "sp_ir_shape", "sp_getmut_index", "sp_extend_clear", "sp_set_wrappers",
+    "C17": ["sp_ii_get", "sp_ii_next", "sp_ii_prev", "sp_ii_minmax", "sp_ii_shape", "sp_ii_iter", "sp_ir_get", "sp_ir_shape", "sp_getmut_index", "sp_extend", "sp_clear", "sp_set_insert_lookup", "sp_set_neighbours_remove",
             "sp_refstab3_left_chain", "sp_refstab3_right_chain", "sp_refstab3_zigzag_lr", "sp_refstab3_zigzag_rl", "sp_refstab3_balanced",
             "sp_remove3_left_chain", "sp_remove3_right_chain", "sp_remove3_zigzag_lr", "sp_remove3_zigzag_rl", "sp_remove3_balanced",
             ],
